@@ -5,6 +5,7 @@
   `write_blocks`).  CUESHEET bodies are modelled in `Model/Cuesheet.lean`.
 -/
 import FlacModel.Model.Cuesheet
+import FlacModel.Gen.EncConst
 
 namespace Flac
 open Flac.Gen
@@ -47,9 +48,13 @@ def seekPtBytes : SeekPt → List Nat
   | .defined s b l => beBytes 8 s ++ beBytes 8 b ++ beBytes 2 l
   | .placeholder => beBytes 8 (2 ^ 64 - 1) ++ beBytes 8 0 ++ beBytes 2 0
 
+/-- the packed 144-bit header of STREAMINFO -/
+def streaminfoPack (si : Streaminfo) : Nat :=
+  ((((((si.minBlock * 2 ^ 16 + si.maxBlock) * 2 ^ 24 + si.minFrame) * 2 ^ 24 + si.maxFrame) * 2 ^ 20 + si.rate) * 2 ^ 3
+    + (si.channels - 1)) * 2 ^ 5 + (si.bps - 1)) * 2 ^ 36 + si.total
+
 def streaminfoBytes (si : Streaminfo) : List Nat :=
-  bitsToBytes (natToBits 16 si.minBlock ++ natToBits 16 si.maxBlock ++ natToBits 24 si.minFrame ++ natToBits 24 si.maxFrame
-    ++ natToBits 20 si.rate ++ natToBits 3 (si.channels - 1) ++ natToBits 5 (si.bps - 1) ++ natToBits 36 si.total) ++ si.md5
+  beBytes 18 (streaminfoPack si) ++ (if si.md5Some then si.md5 else List.replicate 16 0)
 
 /-- defined points must be strictly ascending (`ToBitStream for SeekTable`) -/
 def seekAscending : Option Nat → List SeekPt → Bool
@@ -58,35 +63,50 @@ def seekAscending : Option Nat → List SeekPt → Bool
   | none, .defined s _ _ :: ps => seekAscending (some s) ps
   | some l, .defined s _ _ :: ps => decide (s > l) && seekAscending (some s) ps
 
-/-- body bytes as the writer produces them; `none` = the writer returns an error -/
-def Block.body : Block → Option (List Nat)
-  | .streaminfo si => some (streaminfoBytes si)
-  | .padding n => some (List.replicate n 0)
-  | .application id d => some (beBytes 4 id ++ d)
+/-- the first point is written unconditionally; later defined points must ascend -/
+def seekWritable (pts : List SeekPt) : Bool :=
+  match pts with
+  | [] => true
+  | p :: ps => seekAscending (match p with | .defined s _ _ => some s | .placeholder => none) ps
+
+/-- body bytes as the writer produces them.  `.err` = the writer returns an error; `.panic` = one
+    of its unwraps fails. -/
+def Block.body : Block → Res (List Nat)
+  | .streaminfo si =>
+      if !metaDepthOneWritable && si.bps == 1 then .error (.panic "Streaminfo::to_writer: checked_sub(1).unwrap()")
+      -- `write::<N, _>(v)` refuses a value that does not fit N bits
+      else if si.minFrame ≥ 2 ^ 24 || si.maxFrame ≥ 2 ^ 24 || si.rate ≥ 2 ^ 20 || si.channels > 8 || si.total ≥ 2 ^ 36 then .error (.err "Io(excessive value)")
+      else .ok (streaminfoBytes si)
+  | .padding n => .ok (List.replicate n 0)
+  | .application id d => .ok (beBytes 4 id ++ d)
   | .seektable pts =>
       -- the first point is written unconditionally; later defined points must ascend
-      if (match pts with | [] => true | p :: ps => seekAscending (match p with | .defined s _ _ => some s | .placeholder => none) ps)
-      then some (pts.flatMap seekPtBytes) else none
+      if seekMaxOffsetRefused && pts.any (fun p => match p with | .defined s _ _ => s == 2 ^ 64 - 1 | .placeholder => false) then .error (.err "InvalidSeekTablePoint")
+      else if seekWritable pts
+      then .ok (pts.flatMap seekPtBytes) else .error (.err "InvalidSeekTablePoint")
   | .vorbis v fs =>
-      if v.length ≥ 2 ^ 32 || fs.length ≥ 2 ^ 32 || fs.any (fun f => f.length ≥ 2 ^ 32) then none
-      else some (leBytes 4 v.length ++ v ++ leBytes 4 fs.length ++ fs.flatMap fun f => leBytes 4 f.length ++ f)
+      if v.length ≥ 2 ^ 32 || fs.any (fun f => f.length ≥ 2 ^ 32) then .error (.err "ExcessiveStringLength")
+      else if fs.length ≥ 2 ^ 32 then .error (.err "ExcessiveVorbisEntries")
+      else .ok (leBytes 4 v.length ++ v ++ leBytes 4 fs.length ++ fs.flatMap fun f => leBytes 4 f.length ++ f)
   | .cuesheet c => cueBytes c
   | .picture p =>
-      if p.mime.length ≥ 2 ^ 32 || p.desc.length ≥ 2 ^ 32 || p.data.length ≥ 2 ^ 32 then none
-      else some (beBytes 4 p.ptype ++ beBytes 4 p.mime.length ++ p.mime ++ beBytes 4 p.desc.length ++ p.desc
+      if p.mime.length ≥ 2 ^ 32 || p.desc.length ≥ 2 ^ 32 then .error (.err "ExcessiveStringLength")
+      else if p.data.length ≥ 2 ^ 32 then .error (.err "ExcessivePictureSize")
+      else .ok (beBytes 4 p.ptype ++ beBytes 4 p.mime.length ++ p.mime ++ beBytes 4 p.desc.length ++ p.desc
         ++ beBytes 4 p.width ++ beBytes 4 p.height ++ beBytes 4 p.depth ++ beBytes 4 p.colors ++ beBytes 4 p.data.length ++ p.data)
 
-/-- `MetadataBlock::bytes()` -/
-def Block.bytes (b : Block) : Option Nat :=
+/-- `MetadataBlock::bytes()`: `none` when the dry run fails or exceeds the 24-bit size -/
+def Block.bytes (b : Block) : Res (Option Nat) :=
   match b.body with
-  | some bs => if bs.length ≤ maxBlockSize then some bs.length else none
-  | none => none
+  | .ok bs => .ok (if bs.length ≤ maxBlockSize then some bs.length else none)
+  | .error (.panic s) => .error (.panic s)
+  | .error _ => .ok none
 
 /-- one block with its header (`ToBitStreamUsing for BlockRef`) -/
 def writeBlock (last : Bool) (b : Block) : Res (List Nat) :=
   match b.body with
-  | none => .error (.err "BlockRefused")
-  | some bs =>
+  | .error e => .error e
+  | .ok bs =>
     if bs.length > maxBlockSize then .error (.err "ExcessiveBlockSize")
     else .ok ([(if last then 128 else 0) + b.type] ++ beBytes 3 bs.length ++ bs)
 
@@ -134,6 +154,15 @@ def writeBlocks (bl : List Block) : Res (List Nat) :=
   | _ => .error (.err "MissingStreaminfo")
 
 /-! ### parsing -/
+
+/-- `Contiguous<MAX_POINTS, SeekPoint>`: defined points strictly ascending, none after a placeholder -/
+def seekContig : Option SeekPt → List SeekPt → Bool
+  | _, [] => true
+  | none, p :: ps => seekContig (some p) ps
+  | some (.defined s _ _), (.defined s2 b2 l2) :: ps => decide (s2 > s) && seekContig (some (.defined s2 b2 l2)) ps
+  | some .placeholder, (.defined ..) :: _ => false
+  | some _, .placeholder :: ps => seekContig (some .placeholder) ps
+
 
 def utf8ValidAux : Nat → List Nat → Bool
   | 0, _ => true
@@ -196,15 +225,8 @@ def parseBody (type size : Nat) (body : List Nat) : Res (Block × List Nat) :=
     match takeBytes size body with
     | .error e => .error e
     | .ok (b, r) =>
-      -- `Contiguous::try_collect`: defined points strictly ascending, none after a placeholder
-      let pts := parseSeekPoints (size / 18) b
-      let rec ok : Option SeekPt → List SeekPt → Bool
-        | _, [] => true
-        | none, p :: ps => ok (some p) ps
-        | some (.defined s _ _), (.defined s2 b2 l2) :: ps => decide (s2 > s) && ok (some (.defined s2 b2 l2)) ps
-        | some .placeholder, (.defined ..) :: _ => false
-        | some _, .placeholder :: ps => ok (some .placeholder) ps
-      if pts.length > seekTableMaxPoints || !ok none pts then .error (.err "InvalidSeekTablePoint") else .ok (.seektable pts, r)
+      if (parseSeekPoints (size / 18) b).length > seekTableMaxPoints || !seekContig none (parseSeekPoints (size / 18) b)
+      then .error (.err "InvalidSeekTablePoint") else .ok (.seektable (parseSeekPoints (size / 18) b), r)
   | 4 =>
     match takeBytes 4 body with
     | .error e => .error e
